@@ -156,6 +156,37 @@ func handleUnsafe(fn *ssa.Function, v ssa.Value, at ssa.Instruction, depth int) 
 		}
 		return fmt.Sprintf("comes from %s whose error is not checked on every path to the call (nil on failure)", ir.CallName(c.Common()))
 	case *ssa.Phi:
+		// merged error check: `h, err = A(); … h, err = B(); if err != nil { return }` — the handle and the error are
+		// phis of the same block fed edge by edge from the same calls; a nil test of that error phi covers them all
+		for _, in := range x.Block().Instrs {
+			q, isPhi := in.(*ssa.Phi)
+			if !isPhi {
+				break
+			}
+			if q == x || len(q.Edges) != len(x.Edges) {
+				continue
+			}
+			paired := true
+			for i := range x.Edges {
+				h, ok1 := x.Edges[i].(*ssa.Extract)
+				e, ok2 := q.Edges[i].(*ssa.Extract)
+				if !ok1 || !ok2 || h.Tuple != e.Tuple || h.Index != 0 || e.Index != 1 {
+					paired = false
+					break
+				}
+			}
+			if !paired {
+				continue
+			}
+			if _, g := ir.GuardedBy(fn, ir.Entry(fn), at, true, func(a ir.Atom) bool {
+				if a.V != nil || a.Op != token.EQL {
+					return false
+				}
+				return (a.X == ssa.Value(q) && ir.IsNilConst(a.Y)) || (a.Y == ssa.Value(q) && ir.IsNilConst(a.X))
+			}); g {
+				return ""
+			}
+		}
 		for i, e := range x.Edges {
 			if ir.IsNilConst(e) {
 				return "can still be nil on one path (zero value: no constructor ran)"
